@@ -84,6 +84,9 @@ func c04(e *Env) {
 	// ---- R7 delivery through Process.Run and the sink
 	e.forwardAllOutputs("R7")
 	e.c05Sink("R7")
+	// ---- R8 every created task can get its slots (shared with C07.R1 / C05.R9): a task that waits forever for
+	// the rest of its tokens is never executed
+	e.slotMutexSpansLoop("R8")
 }
 
 func recvName(fn *ssa.Function) string {
